@@ -452,4 +452,20 @@ Proof.
   - now apply (push_env_pres o rho pel pnl G G' mu Hwf Hp).
   - apply (pres_labels_all rho pel pnl G G' Hp Hs). exact H1.
 Qed.
+
+(** the same grammar, two dependency-respecting orders of (arbitrary, possibly recursive)
+    components, each component solved exactly: the two runs agree on every nonterminal *)
+Theorem scc_order_irrelevant_exact G (w mu : env (R:=R)) order order' acc acc' final final' :
+  wf_grammar G = true ->
+  is_lfp_on o G (nonterminals G) (step o G w) mu ->
+  exact_run o G w order acc final -> dep_ordered G [] order ->
+  (forall X, In X (nonterminals G) -> In X (concat order)) ->
+  exact_run o G w order' acc' final' -> dep_ordered G [] order' ->
+  (forall X, In X (nonterminals G) -> In X (concat order')) ->
+  forall X xi, In X (nonterminals G) -> In xi (all_assts (lshape G X)) -> final' X xi = final X xi.
+Proof.
+  intros Hwf Hmu Hrun Hdep Hall Hrun' Hdep' Hall' X xi HX Hxi.
+  rewrite (scc_decomposition_all o Hring Hord G w Hwf mu order acc final Hmu Hrun Hdep Hall X xi HX Hxi).
+  apply (scc_decomposition_all o Hring Hord G w Hwf mu order' acc' final' Hmu Hrun' Hdep' Hall' X xi HX Hxi).
+Qed.
 End Corollaries.
